@@ -5,6 +5,7 @@
 package par
 
 import "fmt"
+import "cuelang.org/go/internal/simhook"
 
 // Queue manages a set of work items to be executed in parallel. The number of
 // active work items is limited, and excess items are queued sequentially.
@@ -53,7 +54,9 @@ func (q *Queue) Add(f func()) {
 	st.active++
 	q.st <- st
 
+	tok := simhook.Spawn("par.Queue.Add")
 	go func() {
+		simhook.Started("par.Queue.Add", tok)
 		for {
 			f()
 
